@@ -43,12 +43,26 @@ var c20Alphabet = []string{
 	"IF 1 = 1 THEN SELECT n FROM t; END IF",
 	"IF 1 = 1 THEN UPDATE t SET n = n + 1; END IF",
 	"CASE WHEN 1 = 2 THEN SELECT 1; ELSE SELECT n FROM u; END CASE",
+	// the same table reached by another spelling, an alias, a derived table, twice in one query; another kind of change
+	"SELECT n FROM `t.csv`",
+	"SELECT x.n FROM t AS x",
+	"SELECT n FROM (SELECT n FROM t) AS s",
+	"SELECT n FROM t WHERE n IN (SELECT n FROM t)",
+	"DELETE FROM t WHERE n >= 100",
+}
+
+// other ways of reading t: for the reference they are the plain SELECT
+var c20Same = map[string]string{
+	"SELECT n FROM `t.csv`":                        "SELECT n FROM t",
+	"SELECT x.n FROM t AS x":                       "SELECT n FROM t",
+	"SELECT n FROM (SELECT n FROM t) AS s":         "SELECT n FROM t",
+	"SELECT n FROM t WHERE n IN (SELECT n FROM t)": "SELECT n FROM t",
 }
 
 // statement boundaries each alphabet entry passes through, as reference steps ("" = no table access)
 var c20Steps = map[string][]string{
-	"IF 1 = 1 THEN SELECT n FROM t; END IF":                            {"", "SELECT n FROM t"},
-	"IF 1 = 1 THEN UPDATE t SET n = n + 1; END IF":                     {"", "UPDATE t SET n = n + 1"},
+	"IF 1 = 1 THEN SELECT n FROM t; END IF":                         {"", "SELECT n FROM t"},
+	"IF 1 = 1 THEN UPDATE t SET n = n + 1; END IF":                  {"", "UPDATE t SET n = n + 1"},
 	"CASE WHEN 1 = 2 THEN SELECT 1; ELSE SELECT n FROM u; END CASE": {"", "SELECT n FROM u"},
 }
 
@@ -97,7 +111,20 @@ func (m *c20Model) commit() {
 
 // step returns the rows a SELECT prints (nil for other statements)
 func (m *c20Model) step(stmt string) []int {
+	if same, ok := c20Same[stmt]; ok {
+		stmt = same
+	}
 	switch stmt {
+	case "DELETE FROM t WHERE n >= 100":
+		e := m.read("t", true)
+		kept := e.rows[:0:0]
+		for _, n := range e.rows {
+			if n < 100 {
+				kept = append(kept, n)
+			}
+		}
+		e.rows = kept
+		e.dirty = true
 	case "SELECT n FROM t":
 		return append([]int{}, m.read("t", false).rows...)
 	case "SELECT n FROM u":
